@@ -1,6 +1,7 @@
 package consul
 
 import (
+	"fmt"
 	"log"
 	"sort"
 	"strings"
@@ -60,8 +61,17 @@ func (w *ServiceMonitor) Watch(updates chan string) {
 		// determine which services have passing health checks
 		passing := passingServices(prefixedChecks, w.config.ServiceStatus, w.strict)
 
-		// build the config for the passing services
-		updates <- w.makeConfig(passing)
+		// build the config for the passing services. A failed catalog
+		// lookup does not mean that the service has no instances: keep
+		// the current routes and ask again instead of publishing a
+		// config without the service and waiting for the next change.
+		cfg, err := w.makeConfig(passing)
+		if err != nil {
+			log.Printf("[WARN] consul: Error building config. %v", err)
+			time.Sleep(time.Second)
+			continue
+		}
+		updates <- cfg
 
 		// remember the last state and wait for the next change
 		lastIndex = meta.LastIndex
@@ -70,7 +80,7 @@ func (w *ServiceMonitor) Watch(updates chan string) {
 
 // makeConfig determines which service instances have passing health checks
 // and then finds the ones which have tags with the right prefix to build the config from.
-func (w *ServiceMonitor) makeConfig(checks []*api.HealthCheck) string {
+func (w *ServiceMonitor) makeConfig(checks []*api.HealthCheck) (string, error) {
 	// map service name to list of service passing for which the health check is ok
 	m := map[string]map[instanceID]bool{}
 	for _, check := range checks {
@@ -90,40 +100,52 @@ func (w *ServiceMonitor) makeConfig(checks []*api.HealthCheck) string {
 		n = 1
 	}
 
+	type result struct {
+		cfg []string
+		err error
+	}
+
 	sem := make(chan int, n)
-	cfgs := make(chan []string, len(m))
+	results := make(chan result, len(m))
 	for name, passing := range m {
 		name, passing := name, passing
 		go func() {
 			sem <- 1
-			cfgs <- w.serviceConfig(name, passing)
+			cfg, err := w.serviceConfig(name, passing)
+			results <- result{cfg, err}
 			<-sem
 		}()
 	}
 
 	var config []string
+	var firstErr error
 	for i := 0; i < len(m); i++ {
-		cfg := <-cfgs
-		config = append(config, cfg...)
+		r := <-results
+		if r.err != nil && firstErr == nil {
+			firstErr = r.err
+		}
+		config = append(config, r.cfg...)
+	}
+	if firstErr != nil {
+		return "", firstErr
 	}
 
 	// sort config in reverse order to sort most specific config to the top
 	sort.Sort(sort.Reverse(sort.StringSlice(config)))
 
-	return strings.Join(config, "\n")
+	return strings.Join(config, "\n"), nil
 }
 
 // serviceConfig constructs the config for all good instances of a single service.
-func (w *ServiceMonitor) serviceConfig(name string, passing map[instanceID]bool) (config []string) {
+func (w *ServiceMonitor) serviceConfig(name string, passing map[instanceID]bool) (config []string, err error) {
 	if name == "" || len(passing) == 0 {
-		return nil
+		return nil, nil
 	}
 
 	q := &api.QueryOptions{RequireConsistent: w.config.RequireConsistent, AllowStale: w.config.AllowStale}
 	svcs, _, err := w.client.Catalog().Service(name, "", q)
 	if err != nil {
-		log.Printf("[WARN] consul: Error getting catalog service %s. %v", name, err)
-		return nil
+		return nil, fmt.Errorf("cannot get catalog service %s. %v", name, err)
 	}
 
 	env := map[string]string{
@@ -145,7 +167,7 @@ func (w *ServiceMonitor) serviceConfig(name string, passing map[instanceID]bool)
 
 		config = append(config, cmds...)
 	}
-	return config
+	return config, nil
 }
 
 // checksWithTagPrefix filters a list of Consul Health Checks to only the Checks with a Tag that begins with the prefix
